@@ -111,7 +111,7 @@ impl std::io::Seek for RoImage {
     fn seek(&mut self, pos: SeekFrom) -> std::io::Result<u64> { if let SeekFrom::Start(p) = pos { self.pos = p; } Ok(self.pos) }
 }
 verif_proof! { [C18]
-    #[kani::unwind(34)]
+    #[kani::unwind(62)]
     fn c18_header_read_without_repair() {
         let h = Header { magic: MAGIC, version: EXPECTED_VERSION, footer_offset: kani::any(), wal_offset: WAL_OFFSET, wal_size: 65536,
                          wal_checkpoint_pos: kani::any(), wal_sequence: kani::any(), toc_checksum: [7u8; 32] };
@@ -119,7 +119,7 @@ verif_proof! { [C18]
         let mut bytes = match enc { Ok(b) => b, Err(e) => { leak(e); return; } };
         let legacy: [u8; 4] = kani::any();
         let at: usize = kani::any();
-        kani::assume(at >= LEGACY_LOCK_REGION_START && at + 4 <= LEGACY_LOCK_REGION_END);
+        kani::assume(at >= LEGACY_LOCK_REGION_START && at <= LEGACY_LOCK_REGION_END - 4);
         bytes[at] = legacy[0]; bytes[at + 1] = legacy[1]; bytes[at + 2] = legacy[2]; bytes[at + 3] = legacy[3];
         let mut img = RoImage { bytes, pos: 0 };
         let r = HeaderCodec::read_without_repair(&mut img);
